@@ -124,10 +124,14 @@ def make_input(spec):
     cat = shipped.catalogue(spec['year'])
     f = cat[spec['form']]
     obj = f['cls'](instance=(f['instances'][0] if f['instances'] else None))
+    import copy
     for i in obj.inputs():
         if i.base_name() == spec['input']:
-            i._name = 'x'
-            return i, None
+            # never rename an object the form classes might share: work on a shallow clone
+            clone = object.__new__(type(i))
+            clone.__dict__.update(i.__dict__)
+            clone._name = 'x'
+            return clone, None
     raise core.HarnessError(f'input {spec} not found')
 
 
